@@ -1,5 +1,6 @@
 """Network-level helpers shared by the gama-local based checks: physical read-back of results, conversion of
 `adjust` trace events into reference-model problems, running one input with the four algorithms."""
+import itertools
 import math
 import os
 import numpy as np
@@ -309,6 +310,14 @@ def compare_physical(A, B, tol_m=1e-7, rel=1e-6, what=("points", "obs", "stats",
                 if len(la) != len(lb):
                     bad.append(("obs:multiplicity", "%s: %d vs %d" % (k, len(la), len(lb))))
                     continue
+                if 1 < len(la) <= 6:
+                    # several observations with the same identity (e.g. a height difference levelled twice): pair them
+                    # by the assignment with the smallest total difference, not by a sort order that a residual on a
+                    # rounding boundary can flip
+                    def _cost(p_):
+                        return sum(abs(x[0] - y[0]) + abs((x[1] or 0.0) - (y[1] or 0.0)) + abs((x[2] or 0.0) - (y[2] or 0.0))
+                                   for x, y in zip(la, p_))
+                    lb = list(min(itertools.permutations(lb), key=_cost))
                 for (ra, sa, qa, fa), (rb, sb, qb, fb) in zip(la, lb):
                     # residuals in mm/cc: 1e-7 m = 1e-4 mm; angular: printed with 16 decimals of gon
                     if abs(ra - rb) > res_tol + rel * max(abs(ra), abs(rb)):
